@@ -81,13 +81,19 @@ func (a *aggregatedLabels) Without(labels ...logql.Label) logqlmetric.Aggregated
 // Key computes grouping key from set of labels.
 func (a *aggregatedLabels) Key() logqlmetric.GroupingKey {
 	h := xxhash.New()
+	empty := true
 	a.forEach(func(k, v string) {
+		empty = false
 		// Separate name and value, so {a="bc"} and {ab="c"} have different keys.
 		_, _ = h.WriteString(k)
 		_, _ = h.Write(keySeparator)
 		_, _ = h.WriteString(v)
 		_, _ = h.Write(keySeparator)
 	})
+	if empty {
+		// Empty label set has the same key whatever produced it (see emptyLabels in logqlmetric).
+		return 0
+	}
 	return h.Sum64()
 }
 
